@@ -10,7 +10,7 @@ typedef OPN2::BankMap::Slot BankSlot;
 // write pattern that stalls CBMC.  The slot is raw heap memory: for the solver all 128 instruments
 // are arbitrary (unwritten heap bytes are nondeterministic); in a native replay build they are
 // filled with a deterministic pseudo-random pattern unless a harness pins entries explicitly.
-static OPN2::Bank *forge_bank(OPNMIDIplay *p, size_t key)
+__attribute__((noinline)) static OPN2::Bank *forge_bank(OPNMIDIplay *p, size_t key)
 {
     OPN2::BankMap &m = p->m_synth->m_insBanks;
     BankSlot *s = (BankSlot *)malloc(sizeof(BankSlot));
@@ -33,11 +33,47 @@ static OPN2::Bank *forge_bank(OPNMIDIplay *p, size_t key)
     return &s->value.second;
 }
 
-// make instrument `idx` of a forged bank an explicit list of nondet bytes (replayable natively)
-static void pin_instrument(OPN2::Bank *bank, unsigned idx)
+// Representation invariant of every bank entry the library can create (cvt_generic_to_FMIns is
+// the only producer besides the zero-filled blank): the second voice is a copy of the first.
+// Harnesses assume it for the entries a call can select (idx may be symbolic).
+static void assume_single_voice(OPN2::Bank *bank, unsigned idx)
 {
-    unsigned char *b = (unsigned char *)&bank->ins[idx];
-    for(unsigned i = 0; i < sizeof(OpnInstMeta); i++)
-        b[i] = nondet_uchar();
+    OpnInstMeta &m = bank->ins[idx];
+#ifdef NATIVE_REPLAY
+    m.op[1] = m.op[0];
+    m.voice2_fine_tune = 0.0;
+#else
+    for(unsigned o = 0; o < 4; o++)
+        for(unsigned d = 0; d < 7; d++)
+            VASSUME(m.op[1].OPS[o].data[d] == m.op[0].OPS[o].data[d]);
+    VASSUME(m.op[1].fbalg == m.op[0].fbalg && m.op[1].lfosens == m.op[0].lfosens && m.op[1].noteOffset == m.op[0].noteOffset);
+    VASSUME(m.voice2_fine_tune == 0.0);
+#endif
 }
+
+// Pin entry `idx`: the timbre (operator registers, feedback/algorithm, LFO sensitivity, note
+// offset) is CONCRETE and identical for both voices, so that the library's `voices[0] == voices[1]`
+// test (a memcmp) is decided during symbolic execution -- with symbolic but equal bytes CBMC
+// explores the two-voice allocation too and merges a symbolic chip channel index into the state.
+// The instrument's meta data (blank flag, drum key, velocity offset, key-on/off times) stay symbolic.
+// Arbitrary timbre bytes are covered by the kernel harnesses on OPN2::noteOn/touchNote/setPatch.
+__attribute__((noinline)) static void pin_instrument(OPN2::Bank *bank, unsigned idx, unsigned seed, int noteOffset)
+{
+    OpnInstMeta &m = bank->ins[idx];
+    for(unsigned o = 0; o < 4; o++)
+        for(unsigned d = 0; d < 7; d++)
+            m.op[0].OPS[o].data[d] = (unsigned char)((seed * 37u + o * 11u + d * 5u) & 0x7F);
+    m.op[0].fbalg = (unsigned char)(seed & 0x3F);
+    m.op[0].lfosens = (unsigned char)((seed >> 1) & 0x37);
+    m.op[0].noteOffset = (int16_t)noteOffset;
+    m.op[1] = m.op[0];
+    m.voice2_fine_tune = 0.0;
+    m.flags = nondet_uchar();
+    m.drumTone = nondet_uchar();
+    m.midiVelocityOffset = (int8_t)nondet_uchar();
+    m.soundKeyOnMs = nondet_ushort();
+    m.soundKeyOffMs = nondet_ushort();
+}
+
+
 #endif
